@@ -245,6 +245,8 @@ package yubiagent
 //@ # ---------------------------------------------------------------- C13: slots on the serving side
 //@ # a status line names a slot when it starts with "Slot" and is long enough to carry two characters after "Slot "
 //@ ghost func slotLine(l string) bool = len(l) >= 7 && substr(l, 0, 4) == "Slot"
+//@ # j-th line of the tool output as split by the p-th strings.Split call (contents at the time of that call)
+//@ ghost func lineAt(p int, j int) string = at(retc(strings.Split, p, 0), off(ret(strings.Split, p, 0)), j)
 //@ func (*server).ListSlots(s)
 //@   requires s != nil
 //@   let e0 = old(calls(Cmd.Output))
@@ -254,16 +256,16 @@ package yubiagent
 //@   let p0 = old(calls(strings.Split))
 //@   ensures [output-split-into-lines] (!s.remote && err == nil) ==> (calls(strings.Split) == p0 + 1 && arg(strings.Split, p0, 0) == str(ret(Cmd.Output, e0, 0)) && arg(strings.Split, p0, 1) == "\n")
 //@   ensures [every-slot-is-the-two-characters-after-Slot-of-a-line] (!s.remote && err == nil) ==> forall(k, 0 <= k && k < len(slots),
-//@     exists(j, 0 <= j && j < len(ret(strings.Split, p0, 0)), slotLine(ret(strings.Split, p0, 0)[j]) && slots[k] == substr(ret(strings.Split, p0, 0)[j], 5, 7)))
-//@   ensures [every-Slot-line-contributes] (!s.remote && err == nil) ==> forall(j, 0 <= j && j < len(ret(strings.Split, p0, 0)), slotLine(ret(strings.Split, p0, 0)[j]) ==>
-//@     exists(k, 0 <= k && k < len(slots), slots[k] == substr(ret(strings.Split, p0, 0)[j], 5, 7)))
+//@     exists(j, 0 <= j && j < len(ret(strings.Split, p0, 0)), slotLine(lineAt(p0, j)) && slots[k] == substr(lineAt(p0, j), 5, 7)))
+//@   ensures [every-Slot-line-contributes] (!s.remote && err == nil) ==> forall(j, 0 <= j && j < len(ret(strings.Split, p0, 0)), slotLine(lineAt(p0, j)) ==>
+//@     exists(k, 0 <= k && k < len(slots), slots[k] == substr(lineAt(p0, j), 5, 7)))
 //@   loop 1:
 //@     invariant !s.remote && calls(Cmd.Output) == e0 + 1 && ret(Cmd.Output, e0, 1) == nil && (slots == nil || fresh(arr(slots)))
 //@     invariant calls(strings.Split) == p0 + 1 && arg(strings.Split, p0, 0) == str(ret(Cmd.Output, e0, 0)) && arg(strings.Split, p0, 1) == "\n"
 //@     invariant [every-slot-is-the-two-characters-after-Slot-of-a-line] forall(k, 0 <= k && k < len(slots),
-//@       exists(j, 0 <= j && j <= rangeindex, slotLine(ret(strings.Split, p0, 0)[j]) && slots[k] == substr(ret(strings.Split, p0, 0)[j], 5, 7)))
-//@     invariant [every-Slot-line-contributes] forall(j, 0 <= j && j <= rangeindex, slotLine(ret(strings.Split, p0, 0)[j]) ==>
-//@       exists(k, 0 <= k && k < len(slots), slots[k] == substr(ret(strings.Split, p0, 0)[j], 5, 7)))
+//@       exists(j, 0 <= j && j <= rangeindex, slotLine(lineAt(p0, j)) && slots[k] == substr(lineAt(p0, j), 5, 7)))
+//@     invariant [every-Slot-line-contributes] forall(j, 0 <= j && j <= rangeindex, slotLine(lineAt(p0, j)) ==>
+//@       exists(k, 0 <= k && k < len(slots), slots[k] == substr(lineAt(p0, j), 5, 7)))
 
 //@ func (*server).ReadSlot(s, slot)
 //@   requires s != nil
